@@ -227,3 +227,15 @@ def run(ctx):  # noqa: F811
     _run_c20c(ctx)
     from .refusal import refusal_rule
     refusal_rule(ctx, "R20.4", ["nifty.re.evi"], "the Wiener-filter entry point", only={"wiener_filter_posterior"}, floor=1)
+
+
+_run_c20d = run
+
+
+def run(ctx):  # noqa: F811
+    _run_c20d(ctx)
+    from .alias import alias
+    from . import c15, c19
+    # MAP / MGVI use the Hamiltonian's curvature (shared with C19); the eager and the compiled CG behind every solve agree (shared with C15)
+    alias(ctx, c19.r19_3, {"R19.3": "R20.5"}, "shared with C19", ctx.model)
+    alias(ctx, c15._run_c15b, {"R15.1": "R20.6"}, "shared with C15")
